@@ -25,6 +25,7 @@ Example::
 from __future__ import annotations
 
 import logging
+import math
 import random
 from dataclasses import dataclass
 from typing import TYPE_CHECKING
@@ -117,6 +118,15 @@ class LeaderNode(Entity):
 
         # VectorClock (initialized lazily when peers are known)
         self._vclock: VectorClock | None = None
+
+        # Latest float timestamps received in Replicate messages / stamped locally. A local
+        # write is causally after all of them, so it must not carry an earlier timestamp, and
+        # must carry a strictly later one than any version received from a peer (otherwise
+        # last-writer-wins breaks the tie by writer id, against the causal order). The
+        # simulated clock alone does not guarantee that: links may have zero latency, and
+        # ``Instant.to_seconds()`` has less than nanosecond resolution at large times.
+        self._latest_remote_timestamp: float = -math.inf
+        self._latest_local_timestamp: float = -math.inf
 
         self._writes = 0
         self._reads = 0
@@ -234,6 +244,10 @@ class LeaderNode(Entity):
             vc_snapshot = {self.name: 1}
 
         timestamp = self.now.to_seconds()
+        if timestamp <= self._latest_remote_timestamp:
+            timestamp = math.nextafter(self._latest_remote_timestamp, math.inf)
+        timestamp = max(timestamp, self._latest_local_timestamp)
+        self._latest_local_timestamp = timestamp
 
         versioned = VersionedValue(
             value=value,
@@ -307,6 +321,8 @@ class LeaderNode(Entity):
         # Update local vector clock
         if self._vclock is not None and remote_vc:
             self._vclock.receive(remote_vc)
+        if isinstance(timestamp, (int, float)) and timestamp > self._latest_remote_timestamp:
+            self._latest_remote_timestamp = timestamp
 
         incoming = VersionedValue(
             value=value,
